@@ -33,7 +33,9 @@ def setup(ctx):
         "files with each defect kind (missing field, bad port, bad fingerprint, non-table entry, duplicate host under "
         "two keys, failing on_conflict at the j-th conflict, unreadable/invalid file) at every entry position in both "
         "modes; export->import round trip for hostile host names (with later last_seen); syscall level: strace injects EIO / ENOSPC / SIGKILL at the n-th pwrite64 / fdatasync / unlink on the database and its journal (every n in the thorough tier), so faults and kills also land inside SQLite's commit. distinct = (operation, mode, injection kind, "
-        "boundary index, store size, outcome in {before, after})."
+        "boundary index, store size, outcome in {before, after}). The command-line entry points (`nauyaca tofu import "
+        "[--replace] --force`, `tofu clear`, `tofu revoke`) run against the same stores through typer's CliRunner with HOME "
+        "redirected: same statement-boundary enumeration, same defective files, same reference after-states."
     )
     ctx.assumptions = [
         "crash points are statement boundaries plus syscall boundaries of the database/journal files (strace injection); a torn single write is not simulated",
@@ -49,6 +51,7 @@ def setup(ctx):
     ctx.require("monitor", "roundtrip_hosts_with_later_last_seen", 20)
     ctx.require("monitor", "outcome_before", 50)
     ctx.require("monitor", "outcome_after", 27)
+    ctx.require("monitor", "defective_imports_via_cli", 60)
 
 
 # --------------------------------------------------------------------------- injector
@@ -184,6 +187,36 @@ def model_import(before, entries, merge, update_conflicts):
     return sorted((h, p, fp_, fs) for (h, p), (fp_, fs) in rows.items())
 
 
+class CliFailed(Exception):
+    pass
+
+
+def cli(dbpath, args):
+    """`nauyaca tofu <args>` as a user runs it: the store is the default one (~/.nauyaca/tofu.db), which
+    for the duration of the command is dbpath (HOME points at a scratch home holding a link to it)."""
+    from typer.testing import CliRunner
+
+    from nauyaca.__main__ import app
+
+    home = str(dbpath) + ".home"
+    shutil.rmtree(home, ignore_errors=True)
+    os.makedirs(os.path.join(home, ".nauyaca"))
+    os.symlink(os.path.abspath(str(dbpath)), os.path.join(home, ".nauyaca", "tofu.db"))
+    old = os.environ.get("HOME")
+    os.environ["HOME"] = home
+    try:
+        r = CliRunner().invoke(app, ["tofu"] + list(args))
+    finally:
+        if old is None:
+            os.environ.pop("HOME", None)
+        else:
+            os.environ["HOME"] = old
+        shutil.rmtree(home, ignore_errors=True)
+    if r.exit_code != 0:
+        raise CliFailed(f"exit {r.exit_code}: {r.exception!r} {(r.output or '')[-160:]!r}")
+    return r
+
+
 def make_ops(tmp, nstore):
     """List of (name, mode, callable(db)) operations; import files are written into tmp."""
     from pathlib import Path
@@ -211,6 +244,14 @@ def make_ops(tmp, nstore):
         ops.append((f"import-ok-update-conflicts", m, lambda db, merge=merge: db.import_toml(Path(f_ok), merge=merge, on_conflict=lambda *a: True)))
         MODELS[(nstore, "import-ok", m)] = lambda before, merge=merge, entries=list(entries): model_import(before, entries, merge, False)
         MODELS[(nstore, "import-ok-update-conflicts", m)] = lambda before, merge=merge, entries=list(entries): model_import(before, entries, merge, True)
+        # the same import as the command-line tool performs it (--force accepts every conflict)
+        ops.append(("cli-import-ok", m, lambda db, merge=merge: cli(db.db_path, ["import", f_ok, "--force"] + ([] if merge else ["--replace"]))))
+        MODELS[(nstore, "cli-import-ok", m)] = lambda before, merge=merge, entries=list(entries): model_import(before, entries, merge, True)
+    ops.append(("cli-clear", "-", lambda db: cli(db.db_path, ["clear", "--force"])))
+    MODELS[(nstore, "cli-clear", "-")] = lambda before: []
+    if nstore:
+        ops.append(("cli-revoke-all-ports", "-", lambda db: cli(db.db_path, ["revoke", HOSTS[0], "--force"])))
+        MODELS[(nstore, "cli-revoke-all-ports", "-")] = lambda before: sorted(r for r in before if r[0] != HOSTS[0])
     MODELS[(nstore, "trust-new", "-")] = lambda before: sorted(before + [("new.example", 1965, fp(1), "*")])
     MODELS[(nstore, "revoke-missing", "-")] = lambda before: sorted(before)
     MODELS[(nstore, "clear", "-")] = lambda before: []
@@ -385,7 +426,9 @@ def run_defective(ctx, tmp, nstore):
     for defect in DEFECTS:
         for n in (1, 3):
             for pos in range(0, n + 1):
-                for merge in (True, False):
+                for merge, via in ((True, "api"), (False, "api"), (True, "cli"), (False, "cli")):
+                    if via == "cli" and (defect == "conflict-callback-raises" or (n == 3 and pos not in (0, n))):
+                        continue
                     dbpath = os.path.join(tmp, "def.db")
                     if os.path.exists(dbpath):
                         os.unlink(dbpath)
@@ -408,12 +451,16 @@ def run_defective(ctx, tmp, nstore):
 
                     raised = None
                     try:
-                        res = db.import_toml(Path(f), merge=merge, on_conflict=on_conflict)
+                        if via == "cli":
+                            ctx.count("monitor", "defective_imports_via_cli")
+                            cli(dbpath, ["import", f, "--force"] + ([] if merge else ["--replace"]))
+                        else:
+                            res = db.import_toml(Path(f), merge=merge, on_conflict=on_conflict)
                     except Exception as e:  # noqa: BLE001
                         raised = repr(e)[:200]
                     got = dump(dbpath)
                     ctx.count("monitor", "defective_imports")
-                    mode = "merge" if merge else "replace"
+                    mode = ("merge" if merge else "replace") + (":cli" if via == "cli" else "")
                     wit = {"defect": defect, "position": pos, "entries": n, "mode": mode, "store_hosts": nstore, "raised": raised,
                            "before": before, "observed": got, "file_keys": [k for k, _ in entries]}
                     if raised is None:
@@ -434,7 +481,7 @@ def run_defective(ctx, tmp, nstore):
                                       f"failed import ({defect} at entry {pos}) changed the store: {len(before)} -> {len(got)} rows", wit)
                     else:
                         ctx.count("monitor", "outcome_before")
-                    ctx.case(("defect", defect, pos, n, mode, nstore, raised is not None), True,
+                    ctx.case(("defect", defect, pos, n, mode, nstore, raised is not None, via), True,
                              sample={"defect": defect, "position": pos, "mode": mode, "raised": raised, "rows_before": len(before), "rows_after": len(got)})
     # unreadable / invalid files
     for kind in ("missing-file", "directory", "invalid-toml", "not-utf8", "no-hosts-section", "hosts-not-table", "truncated"):
